@@ -251,6 +251,39 @@ def run_smoothing(job):
     return cases, fails, metrics
 
 
+# ------------------------------------------------------------------------------ Whittaker-Henderson penalty matrix vs its definition
+def run_whithend_matrix(job):
+    """_make_D_prime_D_matrix(order, size) against D'D computed from the definition (D = the order-th difference matrix,
+    (size - order) x size), band by band, exactly (integers), for every size down to the smallest accepted one"""
+    import pyimpspec  # noqa
+    from pyimpspec.analysis.zhit.smoothing.whittaker_henderson import _make_D_prime_D_matrix
+    from math import comb
+    order, sizes = job
+    cases, fails, metrics = [], [], {}
+    c = [(-1) ** (order - k) * comb(order, k) for k in range(order + 1)]
+    for size in sizes:
+        ckey = ("whithend-matrix", order, size)
+        src = (f"from pyimpspec.analysis.zhit.smoothing.whittaker_henderson import _make_D_prime_D_matrix\nfrom math import comb\norder, size = {order}, {size}\n"
+               "c = [(-1) ** (order - k) * comb(order, k) for k in range(order + 1)]\n"
+               "D = [[(c[j - r] if 0 <= j - r <= order else 0) for j in range(size)] for r in range(size - order)]\n"
+               "want = [[sum(D[r][i] * D[r][i + d] for r in range(size - order)) for i in range(size - d)] for d in range(order + 1)]\n"
+               "got = _make_D_prime_D_matrix(order, size)\nassert [list(map(float, b)) for b in want] == [list(map(float, b)) for b in got], (want, got)\n")
+        D = [[(c[j - r] if 0 <= j - r <= order else 0) for j in range(size)] for r in range(size - order)]
+        want = [[float(sum(D[r][i] * D[r][i + d] for r in range(size - order))) for i in range(size - d)] for d in range(order + 1)]
+        try:
+            got = [list(map(float, b)) for b in _make_D_prime_D_matrix(order, size)]
+        except Exception as ex:  # noqa
+            cases.append((ckey, True, None))
+            fails.append((f"whithend-matrix:order={order}:raises {type(ex).__name__}", "_make_D_prime_D_matrix", f"_make_D_prime_D_matrix({order}, {size}): {type(ex).__name__}: {str(ex)[:100]}", src))
+            continue
+        cases.append((ckey, True, {"order": order, "size": size, "bands": len(got)}))
+        if got != want:
+            small = "small" if size < 2 * (order + 1) else "regular"
+            fails.append((f"whithend-matrix:order={order}:{small}-size:differs-from-D'D", "_make_D_prime_D_matrix",
+                          f"_make_D_prime_D_matrix({order}, {size}) is not D'D of the order-{order} difference matrix (first differing band: {next(d for d in range(order + 1) if got[d] != want[d])})", src))
+    return cases, fails, metrics
+
+
 # ------------------------------------------------------------------------------------------------------ named windows
 def run_windows(job):
     import pyimpspec  # noqa
@@ -375,6 +408,9 @@ def main(a):
     sm_npos = [(2, 1), (3, 1), (3, 2), (4, 2), (4, 3), (5, 2), (5, 3), (5, 4), (7, 2), (7, 4), (7, 6), (9, 2), (9, 4), (15, 2), (15, 4), (15, 6), (21, 8), (8, 4), (9, 1), (9, 3)]
     for n in ([71] if quick else [36, 71, 141, 351]):       # num_points < n/6 so that an interior (>= 2 num_points from either end) exists
         jobs.append(("run_smoothing", (n, [(sm, npts, po) for sm in SMOOTHINGS[1:] for npts, po in sm_npos if npts < n / 6])))
+    # Whittaker-Henderson penalty matrix against its definition, every size from the smallest accepted one
+    for order in range(1, 6):
+        jobs.append(("run_whithend_matrix", (order, list(range(order, 25 if quick else 80)))))
     # named windows
     wsets = [("boxcar", 1.5, 3.0, False), ("hann", 1.5, 3.0, False), ("auto", 1.5, 3.0, False), ("cosine", 2.0, 2.0, False), ("triang", 0.25, 1.5, False), ("auto", 1.5, 3.0, True), ("boxcar", 3.0, 4.0, False)]
     if not quick:
@@ -386,12 +422,12 @@ def main(a):
     slow = [("run_windows", (cdc, G71, [ws])) for cdc in ladders[: (2 if quick else 8)] for ws in (wsets[:3] + wsets[4:5] if quick else wsets)]
     jobs = slow + jobs
 
-    counts = {fn: sum(1 for j in jobs if j[0] == fn) for fn in ("run_const", "run_ladder", "run_scaling", "run_zero_weight", "run_smoothing", "run_windows")}
+    counts = {fn: sum(1 for j in jobs if j[0] == fn) for fn in ("run_const", "run_ladder", "run_scaling", "run_zero_weight", "run_smoothing", "run_windows", "run_whithend_matrix")}
     res = Result("C11", f"{len(spectra)} constant-phase spectra (R, C, L, Q with n 0.3..1, W) x {len(SMOOTHINGS)} smoothings x {len(INTERPOLATIONS)} interpolations x {{Z, Y}} x num_points/polynomial_order {npos} x "
                  f"custom weights {wkinds} x grids {grids} (+ smoothing/interpolation 'auto'); {len(ladders)} random R(RC|RQ)x1..3 ladders x 20 smoothing/interpolation pairs; "
                  f"{counts['run_scaling']} scaling pairs (c = 1e-3, 1e3); {counts['run_zero_weight']} zero-weight perturbations; 4 filters x {len(sm_npos)} (num_points, order) on constant/linear data; "
                  f"{len(wsets)} named-window settings (window=..., center, width; incl. 'auto' and the defaults) on constant-phase spectra and ladders ({counts['run_windows']} jobs), "
-                 f"weights of every window in the table checked for [0, 1] and zero outside the window",
+                 f"weights of every window in the table checked for [0, 1] and zero outside the window; Whittaker-Henderson penalty matrix vs its definition for orders 1..5 x sizes order..{24 if quick else 79}",
                  "full product over the option sets for constant-phase spectra, seeded random ladders, covering design for the slow ladder runs; one case = (spectrum, grid, weights, options); "
                  "non-trivial = perform_zhit returned a reconstruction that was compared with the analytic modulus")
     maxima = {}
